@@ -9,7 +9,7 @@
 
    The zero-literal defect (two findings of C16: a literal 0 of an operand printed next to the
    comparison operator of an `if` changed the tree or made the text unparsable) is REPAIRED in /repo
-   (fix commit <commit>): d_prog models the repaired `impl Print for IfC`, and the round trip and
+   (fix commit c039e57): d_prog models the repaired `impl Print for IfC`, and the round trip and
    idempotence hold WITHOUT a guard.  old_d_prog = the printer before the repair, zsafe_prog = the guard
    the theorems needed then (no `if` has a literal 0 adjacent to its operator; Model/FmtClass.v): they
    only occur in the regression statements at the end. *)
@@ -93,7 +93,7 @@ Theorem C16_idempotent_pretty :
 Proof. exact idempotent_pretty. Qed.
 Print Assumptions C16_idempotent_pretty.
 
-(* ---------- REPAIRED defect (fix commit <commit> of /repo), kept as regression statements ----------
+(* ---------- REPAIRED defect (fix commit c039e57 of /repo), kept as regression statements ----------
    Before the fix `impl Print for IfC` wrote `if fst cmp snd` / `if fst cmp 0` whatever the operands
    were; a literal 0 that ends fst or starts snd then stood next to the operator and the lexer fused
    them (r"0\s*==", r"==\s*0", ...).  [old_d_prog] is the model of that printer (only used here). *)
